@@ -34,6 +34,16 @@ def StimEv.now (ev : StimEv) : Int := if ev.st.real < ev.m.now then ev.m.now els
 def StimEv.stamp (sp : Speed) (ev : StimEv) : SimTime :=
   interruptStamp ev.m.tickerTime ev.now ev.m.lastReal sp
 
+/-- the top-level component that the master sees interrupting: the component itself or the
+outermost system component containing it (`masterRun`: `top`) -/
+def StimEv.top (S : Static) (fuel : Nat) (ev : StimEv) : Comp :=
+  (raiseInterrupt S fuel ev.st.comp ev.m.sim).2
+
+/-- the wakeup time written for `top`: the stamp, unless an earlier wakeup of `top` is still
+pending, which is kept (`masterRun`: `when`) -/
+def StimEv.when (S : Static) (fuel : Nat) (sp : Speed) (ev : StimEv) : SimTime :=
+  stimWhen (ev.m.sim.sched "").wake (ev.top S fuel) (ev.stamp sp)
+
 /-- `Run S orc fuel sp m stims acc m2 ticks log`: started in master state `m` with pending stimuli
 `stims` and tick records `acc`, the master loop stops in `m2` with tick records `ticks`, having
 handled the stimuli recorded in `log` (in this order).  The three constructors are the branches of
@@ -59,12 +69,35 @@ inductive Run (S : Static) (orc : Oracle) (fuel : Nat) (sp : Speed) :
         (acc ++ [⟨w, dueReal m sp w, comps⟩]) m2 ticks log) :
       Run S orc fuel sp m stims acc m2 ticks log
 
-/-- every successful `masterRun` is a `Run`. -/
-theorem masterRun_run (S : Static) (orc : Oracle) (fuel : Nat) (sp : Speed) :
+/-- the log of handled stimuli, computed alongside `masterRun` (`k`: number of tick records
+written so far) -/
+def runLog (S : Static) (orc : Oracle) (fuel : Nat) (sp : Speed) :
+    Nat → Nat → MasterSt → List Stim → Nat → List StimEv
+  | 0, _, _, _, _ => []
+  | steps + 1, nTicks, m, stims, k =>
+    match nTicks with
+    | 0 => []
+    | nTicks + 1 =>
+      match stimSel m sp (firstWakeups (m.sim.sched "").wake).2 stims with
+      | some (st, rest) =>
+        ⟨m, st, k⟩ :: runLog S orc fuel sp steps (nTicks + 1) (stimStep S fuel sp m st) rest k
+      | none =>
+        match firstWakeups (m.sim.sched "").wake with
+        | (comps, some w) =>
+          match tickLevel S orc fuel "" w comps [] (delMaster m.sim comps) with
+          | .error _ => []
+          | .ok (sim2, _) =>
+            runLog S orc fuel sp steps nTicks
+              { sim := sim2, tickerTime := w, lastReal := dueReal m sp w, now := dueReal m sp w }
+              stims (k + 1)
+        | (_, none) => []
+
+/-- every successful `masterRun` is a `Run`, with the log `runLog`. -/
+theorem masterRun_runLog (S : Static) (orc : Oracle) (fuel : Nat) (sp : Speed) :
     ∀ (steps nTicks : Nat) (m : MasterSt) (stims : List Stim) (acc : List TickRec)
       (m2 : MasterSt) (ticks : List TickRec),
       masterRun S orc fuel sp steps nTicks m stims acc = .ok (m2, ticks) →
-      ∃ log, Run S orc fuel sp m stims acc m2 ticks log := by
+      Run S orc fuel sp m stims acc m2 ticks (runLog S orc fuel sp steps nTicks m stims acc.length) := by
   intro steps
   induction steps with
   | zero =>
@@ -72,7 +105,7 @@ theorem masterRun_run (S : Static) (orc : Oracle) (fuel : Nat) (sp : Speed) :
     rw [masterRun] at h
     simp only [Except.ok.injEq, Prod.mk.injEq] at h
     obtain ⟨rfl, rfl⟩ := h
-    exact ⟨[], Run.stop _ _ _⟩
+    exact Run.stop _ _ _
   | succ steps ih =>
     intro nTicks m stims acc m2 ticks h
     cases nTicks with
@@ -80,24 +113,40 @@ theorem masterRun_run (S : Static) (orc : Oracle) (fuel : Nat) (sp : Speed) :
       rw [masterRun.eq_2 _ _ _ _ _ _ _ _ (by simp)] at h
       simp only [Except.ok.injEq, Prod.mk.injEq] at h
       obtain ⟨rfl, rfl⟩ := h
-      exact ⟨[], Run.stop _ _ _⟩
+      exact Run.stop _ _ _
     | succ nTicks =>
       rw [masterRun_unfold] at h
+      rw [runLog]
       split at h
       · rename_i st rest hsel
-        obtain ⟨log, hlog⟩ := ih _ _ _ _ _ _ h
-        exact ⟨_, Run.stim hsel hlog⟩
+        rw [hsel]
+        exact Run.stim hsel (ih _ _ _ _ _ _ h)
       · rename_i hsel
+        rw [hsel]
+        simp only []
         split at h
         · rename_i comps w hfw
+          rw [hfw]
+          simp only []
           split at h
           · cases h
           · rename_i sim2 out hr
-            obtain ⟨log, hlog⟩ := ih _ _ _ _ _ _ h
-            exact ⟨log, Run.tick hsel hfw hr hlog⟩
+            rw [hr]
+            have := ih _ _ _ _ _ _ h
+            simp only [List.length_append, List.length_singleton] at this
+            exact Run.tick hsel hfw hr this
         · simp only [Except.ok.injEq, Prod.mk.injEq] at h
           obtain ⟨rfl, rfl⟩ := h
-          exact ⟨[], Run.stop _ _ _⟩
+          rename_i hnone
+          rw [hnone]
+          exact Run.stop _ _ _
+
+theorem masterRun_run (S : Static) (orc : Oracle) (fuel : Nat) (sp : Speed)
+    (steps nTicks : Nat) (m : MasterSt) (stims : List Stim) (acc : List TickRec)
+    (m2 : MasterSt) (ticks : List TickRec)
+    (h : masterRun S orc fuel sp steps nTicks m stims acc = .ok (m2, ticks)) :
+    ∃ log, Run S orc fuel sp m stims acc m2 ticks log :=
+  ⟨_, masterRun_runLog S orc fuel sp steps nTicks m stims acc m2 ticks h⟩
 
 theorem Run.prefix {S : Static} {orc : Oracle} {fuel : Nat} {sp : Speed} {m : MasterSt}
     {stims : List Stim} {acc : List TickRec} {m2 : MasterSt} {ticks : List TickRec}
@@ -299,15 +348,16 @@ theorem upsert_self_mem {κ β : Type} [DecidableEq κ] (m : List (κ × β)) (k
 
 /-- an entry survives `upsert` unless it is the one `alookup` finds for that key -/
 theorem upsert_keeps {κ β : Type} [DecidableEq κ] (m : List (κ × β)) (k : κ) (v : β) (e : κ × β)
-    (h : e ∈ m) : e ∈ upsert m k v ∨ alookup m k = some e.2 := by
+    (h : e ∈ m) : e ∈ upsert m k v ∨ (e.1 = k ∧ alookup m k = some e.2) := by
   induction m with
   | nil => cases h
   | cons a t ih =>
     obtain ⟨a, w⟩ := a
     simp only [upsert, alookup]
     split
-    · rcases List.mem_cons.1 h with h | h
-      · right; rw [h]
+    · rename_i hak
+      rcases List.mem_cons.1 h with h | h
+      · right; rw [h]; exact ⟨hak, rfl⟩
       · left; exact List.mem_cons_of_mem _ h
     · rcases List.mem_cons.1 h with h | h
       · left; rw [h]; exact List.mem_cons_self
@@ -386,18 +436,19 @@ for a simulation time `≤ bound`. -/
 theorem Run.next_real {S : Static} {orc : Oracle} {fuel : Nat} {sp : Speed} {m : MasterSt}
     {stims : List Stim} {acc : List TickRec} {m2 : MasterSt} {ticks : List TickRec}
     {log : List StimEv} (h : Run S orc fuel sp m stims acc m2 ticks log) (hd : 0 < sp.den)
-    (bound : SimTime) :
+    (top : Comp) (bound : SimTime) :
     m.lastReal ≤ m.now →
-    (∃ e ∈ (m.sim.sched "").wake, e.2 ≤ bound ∧
+    (∃ e ∈ (m.sim.sched "").wake, e.1 = top ∧ e.2 ≤ bound ∧
       (e.2 - m.tickerTime) * sp.den ≤ (m.now - m.lastReal) * sp.num) →
-    ∀ x, ticks[acc.length]? = some x → x.real = m.now ∧ x.time ≤ bound := by
+    ∀ x, ticks[acc.length]? = some x →
+      x.real = m.now ∧ x.time ≤ bound ∧ (x.time = bound → top ∈ x.roots) := by
   induction h with
   | stop m stims acc =>
     intro _ _ x hx
     have := (List.getElem?_eq_some_iff.1 hx).1
     omega
   | @stim m stims acc st rest m2 ticks log hsel _ ih =>
-    intro hLN ⟨e, he, heb, hes⟩ x hx
+    intro hLN ⟨e, he, het, heb, hes⟩ x hx
     obtain ⟨w, hw, hwe⟩ := firstWakeups_some_of_mem _ e he
     rw [hw] at hsel
     have hdue := stimSel_due hsel
@@ -408,15 +459,16 @@ theorem Run.next_real {S : Static} {orc : Oracle} {fuel : Nat} {sp : Speed} {m :
     have hres := ih (by show m.lastReal ≤ (stimStep S fuel sp m st).now; rw [hnow']; exact hLN) ?_ x hx
     · rw [hnow'] at hres; exact hres
     · rw [stimStep_wake]
-      show ∃ e' ∈ addWakeup _ _ _, e'.2 ≤ bound ∧
+      show ∃ e' ∈ addWakeup _ _ _, e'.1 = top ∧ e'.2 ≤ bound ∧
         (e'.2 - m.tickerTime) * sp.den ≤ ((stimStep S fuel sp m st).now - m.lastReal) * sp.num
       rw [hnow']
       rcases upsert_keeps (m.sim.sched "").wake (raiseInterrupt S fuel st.comp m.sim).2
         (stimWhen (m.sim.sched "").wake (raiseInterrupt S fuel st.comp m.sim).2
           (interruptStamp m.tickerTime (if st.real < m.now then m.now else st.real) m.lastReal sp))
         e he with hk | hk
-      · exact ⟨e, hk, heb, hes⟩
-      · refine ⟨_, upsert_self_mem _ _ _, ?_, ?_⟩
+      · exact ⟨e, hk, het, heb, hes⟩
+      · obtain ⟨hk1, hk⟩ := hk
+        refine ⟨_, upsert_self_mem _ _ _, by rw [← hk1]; exact het, ?_, ?_⟩
         · exact Int.le_trans (stimWhen_le_old _ _ _ _ hk) heb
         · have h1 := stimWhen_le_old _ _ (interruptStamp m.tickerTime
             (if st.real < m.now then m.now else st.real) m.lastReal sp) _ hk
@@ -426,22 +478,30 @@ theorem Run.next_real {S : Static} {orc : Oracle} {fuel : Nat} {sp : Speed} {m :
             Int.mul_le_mul_of_nonneg_right (by simp only [SimTime] at *; omega) (by omega)
           exact Int.le_trans this hes
   | @tick m stims acc comps w sim2 out m2 ticks log hsel hfw htick hrun ih =>
-    intro hLN ⟨e, he, heb, hes⟩ x hx
+    intro hLN ⟨e, he, het, heb, hes⟩ x hx
     obtain ⟨t, ht⟩ := hrun.prefix
     rw [ht, List.append_assoc, List.getElem?_append_right (Nat.le_refl _), Nat.sub_self] at hx
     simp only [List.singleton_append, List.getElem?_cons_zero, Option.some.injEq] at hx
     subst hx
     have hsnd : (firstWakeups (m.sim.sched "").wake).2 = some w := by rw [hfw]
     have hwe := (firstWakeups_mem _ _ hsnd).2 e he
-    exact ⟨dueReal_now_of_reached m sp w e.2 hwe hes, Int.le_trans hwe heb⟩
+    refine ⟨dueReal_now_of_reached m sp w e.2 hwe hes, Int.le_trans hwe heb, fun hwb => ?_⟩
+    have hwb : w = bound := hwb
+    have hew : e.2 = w := by simp only [SimTime] at *; omega
+    have hcs := ((firstWakeups_eq _ _ _).1 hfw).2
+    show top ∈ comps
+    rw [hcs]
+    exact List.mem_map.2 ⟨e, List.mem_filter.2 ⟨he, by simp [hew]⟩, het⟩
 
 /-- every handled stimulus: the tick record that follows it — if there is one — is started at
-the real time `ev.now` at which the stimulus was handled, for a simulation time `≤` its stamp. -/
+the real time `ev.now` at which the stimulus was handled, for a simulation time `≤ ev.when`
+(`≤` its stamp); if it is the tick for `ev.when`, the interrupting component is among its roots. -/
 theorem Run.served {S : Static} {orc : Oracle} {fuel : Nat} {sp : Speed} {m : MasterSt}
     {stims : List Stim} {acc : List TickRec} {m2 : MasterSt} {ticks : List TickRec}
     {log : List StimEv} (h : Run S orc fuel sp m stims acc m2 ticks log) (hd : 0 < sp.den) :
     m.lastReal ≤ m.now →
-    ∀ ev ∈ log, ∀ x, ticks[ev.k]? = some x → x.real = ev.now ∧ x.time ≤ ev.stamp sp := by
+    ∀ ev ∈ log, ∀ x, ticks[ev.k]? = some x →
+      x.real = ev.now ∧ x.time ≤ ev.when S fuel sp ∧ (x.time = ev.when S fuel sp → ev.top S fuel ∈ x.roots) := by
   induction h with
   | stop => intro _ ev hev; cases hev
   | @stim m stims acc st rest m2 ticks log hsel hrun ih =>
@@ -450,9 +510,9 @@ theorem Run.served {S : Static} {orc : Oracle} {fuel : Nat} {sp : Speed} {m : Ma
       split <;> omega
     rcases List.mem_cons.1 hev with hev | hev
     · subst hev
-      refine hrun.next_real hd _ hLN' ?_ x hx
+      refine hrun.next_real hd _ _ hLN' ?_ x hx
       rw [stimStep_wake]
-      refine ⟨_, upsert_self_mem _ _ _, stimWhen_le_stamp _ _ _, ?_⟩
+      refine ⟨_, upsert_self_mem _ _ _, rfl, Int.le_refl _, ?_⟩
       have h1 := stimWhen_le_stamp (m.sim.sched "").wake (raiseInterrupt S fuel st.comp m.sim).2
         (interruptStamp m.tickerTime (if st.real < m.now then m.now else st.real) m.lastReal sp)
       have h2 := (stamp_law' m.tickerTime (if st.real < m.now then m.now else st.real) m.lastReal sp
